@@ -30,6 +30,9 @@ ASSUMPTIONS = ["sklearn DBSCAN(min_samples=1) yields the connected "
                "components of the eps-neighbourhood graph (no noise points)"]
 
 MUTANTS = [
+    ("ratio 1 rescales sources with unknown psf", "AegeanTools/cluster.py",
+     "            if ratio != 1:\n", "            if ratio != 0:\n",
+     "C19-R7"),
     ("matched source appended to the newest group", "AegeanTools/cluster.py",
      "                group.append(idx)\n                break",
      "                groups[-1].append(idx)\n                break", "C19-R9"),
@@ -100,6 +103,8 @@ MUTANTS = [
      "    X = np.hstack([x[:, None], y[:, None], z[:, None]]).astype(np.float32)", "C19-R8"),
 ]
 TWINS = [
+    ("ratio guard written the other way round", "AegeanTools/cluster.py",
+     "            if ratio != 1:\n", "            if not ratio == 1:\n"),
     ("key via reverse", "AegeanTools/cluster.py",
      "    for isle, group in enumerate(groups):\n        for comp, src in "
      "enumerate(sorted(group,\n                                          "
